@@ -143,7 +143,9 @@ def run(ctx):
 
         _flaky.Flaky.plan = plan
         which = H.pick(["progressive", "progressive", "stack"])
+        rnd.op_cap = 15000  # bounded liveness: the progressive decider has no depth bound
         for _ in range(1 + H.draw(4)):
+            rnd.reset_cap()
             try:
                 if which == "progressive":
                     rep = TreeBasedRepresentation(g, ProgressivelyTerminalDecider(rnd, g))
